@@ -29,15 +29,19 @@ OUTPUT_STRATS = (None,) + MERGE_STRATS + ("remove", "clear-all")
 TOOLS = ("git", "diff3", "builtin")
 
 # per-side action lists
-ACTS_CODE = ["keep", "del", "src1", "src2", "src3", "src4", "src6", "rerun", "ec", "out_edit", "out_edit2",
+ACTS_CODE = ["keep", "del", "src1", "src2", "src3", "src4", "src6", "src7", "rerun", "ec", "out_edit", "out_edit2",
              "out_clear", "out_add", "out_add2", "md_edit", "md_add", "md_del", "md_collapsed", "id",
              "tag_front", "tag_back"]
 ACTS_SMALL = ["keep", "del", "src1", "src2", "rerun", "out_edit", "out_edit2", "md_edit"]
-ACTS_MD = ["keep", "del", "src1", "src2", "src3", "src4", "md_edit", "att_add", "att_del", "att_edit",
+ACTS_MD = ["keep", "del", "src1", "src2", "src3", "src4", "src7", "md_edit", "att_add", "att_del", "att_edit",
            "att_rename", "id"]
 ACTS_CONFLICT = ["src1", "src2", "del", "out_edit", "out_edit2", "md_edit", "rerun"]
 INS_SIDE = {"l": [None, ("N1", 0), ("N2", 1), ("N1", 1), ("NmA", 0)],
             "r": [None, ("N1s", 0), ("N2", 1), ("Nm", 0), ("N1", 1), ("NmB", 0)]}
+# runs of several inserted cells at one position: dissimilar blocks of unequal
+# length followed / preceded by a similar pair, a common cell, a lone cell
+INS_RUNS = {"l": [None, (("N2", "N3", "N1"), 0), (("N1", "N2"), 0), (("N4", "N1", "N3"), 0), (("N2",), 0)],
+            "r": [None, (("N4", "N1s"), 0), (("N1s", "N3", "N4"), 0), (("Nm", "N4", "N1s", "N2"), 0), (("N2", "N1s"), 0)]}
 
 
 def mk_args(merge_strategy="inline", input_strategy=None, output_strategy=None,
@@ -248,15 +252,16 @@ def _walk_entries(diff):
 # ------------------------------------------------------------------ factories
 def make_default(templates, acts="ACTS_CODE", ins=(1, 1), nbacts=("keep",), ids=(0, 1), tool="git",
                  strat=("inline", None, None, True), props=("C03",), known=(),
-                 sym=("ec", "md", "json", "minor"), conflict_only=False):
+                 sym=("ec", "md", "json", "minor"), conflict_only=False, runs=False):
     """One strategy configuration, full product of local x remote scripts."""
     acts_ = globals()[acts]
 
     def h(E):
         install_env(tool)
+        src = INS_RUNS if runs else INS_SIDE
         b, l, r, info = gen_triple(
             E, templates, acts_, acts_,
-            INS_SIDE["l"] if ins[0] else [None], INS_SIDE["r"] if ins[1] else [None],
+            src["l"] if ins[0] else [None], src["r"] if ins[1] else [None],
             nbacts, ids, sym, conflict_only)
         fam_nbdiff.assert_valid_inputs(E, b, l, r)
         args = mk_args(*strat)
@@ -316,6 +321,15 @@ CONFLICT_SCRIPTS = [
     (("codeS",), ("src1",), ("src2",), {}, {}),
     (("codeA",), ("keep",), ("keep",), {0: "NmA"}, {0: "NmB"}),  # similar inserts, attachments differ
     ((), (), (), {0: "NmA"}, {0: "NmB"}),                        # empty base, both add
+    ((), (), (), {0: "N1"}, {0: "N2"}),                          # empty base, dissimilar inserts
+    (("codeL",), ("src1",), ("src2",), {}, {}),                  # two separate conflict regions in one cell
+    (("codeA",), ("src1",), ("src7",), {}, {}),                  # remote empties the source
+    (("codeTr",), ("md_scrolled_true",), ("md_scrolled_auto",), {}, {}),   # transient metadata conflict
+    (("codeTr",), ("md_del_collapsed",), ("md_collapsed",), {}, {}),
+    (("codeRes2",), ("out_del_last",), ("out_ec",), {}, {}),     # delete output vs transient-only change
+    (("codeRes2",), ("out_add_front",), ("out_del",), {}, {}),   # insert before a deleted output
+    (("codeA",), ("src8",), ("src9",), {}, {}),                  # insert a line before a deleted line
+    (("codeA",), ("keep",), ("keep",), {0: ("N2", "N3", "N1")}, {0: ("N4", "N1s")}),   # unequal runs + similar tail
 ]
 
 
@@ -324,9 +338,41 @@ QUICK_TEMPLATES = ["codeA", "codeB", "mdAtt", "codeRes2", "codeS", "raw", "codeJ
 
 
 ACTS_INS = ["keep", "del", "src1"]
+ACTS_KEEP = ["keep"]
+ACTS_TRANSIENT = ["keep", "md_del_collapsed", "md_collapsed", "md_scrolled_true", "md_scrolled_auto", "md_edit", "ec"]
+ACTS_LONG = ["keep", "src1", "src2", "src3", "src4", "src7", "src8", "src9", "del"]
+ACTS_OUTS = ["keep", "out_add_front", "out_ec", "out_del", "out_del_last", "out_edit", "out_add", "out_add2", "rerun"]
+ACTS_EMPTYSRC = ["keep", "src1", "src7", "src4"]
+ACTS_LINES = ["keep", "src1", "src8", "src9", "src3"]
 ACTS_F13 = ["src1", "src4"]
+ACTS_F24 = ["src3", "src4"]
 ACTS_TAGS = ["tag_front", "tag_back"]
 ACTS_PAIR = ["keep", "del", "src1", "src2", "rerun", "md_edit"]
+
+
+def scenario_shards(tier, tool, kw):
+    """Targeted scenarios with small action sets (each is a full local x
+    remote product inside its set)."""
+    out = []
+
+    def add(name, **params):
+        p = dict(kw)
+        p.update(params)
+        out.append(("make_default", "scn-%s-%s" % (name, tool), dict(tool=tool, nbacts=("keep",), **p)))
+    add("runs-codeA", templates=("codeA",), acts="ACTS_INS", ins=(1, 1), runs=True)
+    add("runs-empty", templates=(), acts="ACTS_KEEP", ins=(1, 1), runs=True)
+    add("ins-empty", templates=(), acts="ACTS_KEEP", ins=(1, 1))
+    add("transient", templates=("codeTr",), acts="ACTS_TRANSIENT", ins=(0, 0))
+    add("long", templates=("codeL",), acts="ACTS_LONG", ins=(0, 0))
+    add("outputs", templates=("codeRes2",), acts="ACTS_OUTS", ins=(0, 0))
+    add("outputs-emp", templates=("codeEmp",), acts="ACTS_OUTS", ins=(0, 0))
+    add("mime", templates=("codeMime",), acts="ACTS_SMALL", ins=(0, 0))
+    add("unicode", templates=("codeU",), acts="ACTS_LINES", ins=(0, 0))
+    add("lines", templates=("codeA",), acts="ACTS_LINES", ins=(0, 0))
+    if tier == "thorough":
+        add("runs-pair", templates=("codeA", "codeB"), acts="ACTS_KEEP", ins=(1, 1), runs=True)
+        add("lol", templates=("codeLol",), acts="ACTS_SMALL", ins=(0, 0))
+    return out
 
 
 def default_shards(tier, props, known, tools=("git",), conflict_only=False, templates=None):
@@ -348,6 +394,7 @@ def default_shards(tier, props, known, tools=("git",), conflict_only=False, temp
             out.append(("make_default", "nb-%s-%s" % (tool, t),
                         dict(templates=(t,), acts="ACTS_INS", ins=(0, 0),
                              nbacts=("keep", "md_edit", "md_add", "md_del", "minor"), tool=tool, **kw)))
+        out += scenario_shards(tier, tool, kw)
         pairs = [("codeA", "codeB")] if tier == "quick" else [
             ("codeA", "codeB"), ("codeA", "mdAtt"), ("codeS", "codeS"), ("codeA", "codeA"), ("md", "codeRes2")]
         for p in pairs:
@@ -365,7 +412,7 @@ def strategy_shards(tier, props, known, tools=TOOLS, which="all"):
     for i, (tm, sl, sr, il, ir) in enumerate(CONFLICT_SCRIPTS):
         out.append(("make_strategies", "strat-%02d" % i,
                     dict(templates=tm, script=(sl, sr, tuple(il.items()), tuple(ir.items())),
-                         tools=tools, ids=(0, 1) if tier == "thorough" else ((0,) if i % 2 else (1,)),
+                         tools=tools, ids=(0, 1) if (tier == "thorough" or i >= 19) else ((0,) if i % 2 else (1,)),
                          which=which, **kw)))
     return out
 
@@ -373,7 +420,9 @@ def strategy_shards(tier, props, known, tools=TOOLS, which="all"):
 # ------------------------------------------------------------------ C10
 USE = ("use-base", "use-local", "use-remote")
 ACTS_SRC = ["keep", "src1", "src2", "src4", "src5"]   # edits that keep the cell similar (conflicts stay inside the source)
-ACTS_OUT = ["keep", "out_edit", "out_edit2", "out_add", "out_del"]   # touch nothing but the outputs list
+ACTS_OUT = ["keep", "out_edit", "out_edit2", "out_add", "out_del"]
+ACTS_OUT2 = ["keep", "out_add_front", "out_del", "out_del_last", "out_edit", "out_add2"]      # outputs list only
+ACTS_LINES_SIM = ["keep", "src1", "src8", "src9", "src5"]      # similar edits incl. line insertion / deletion   # touch nothing but the outputs list
 
 
 def make_use(templates, mode="merge", acts="ACTS_SMALL", ins=(0, 0), ids=(0, 1), tools=("git",),
@@ -428,7 +477,13 @@ def make_use(templates, mode="merge", acts="ACTS_SMALL", ins=(0, 0), ids=(0, 1),
                 info="strategy %s (%s)" % (s, mode))
         fab = fabricated_lines(source_lines(b), source_lines(l), source_lines(r),
                                source_lines(m1), allow_markers=False)
-        E.check("no-source-line-absent-from-all-inputs", not fab, info=fab[:3])
+        if fab and "F24" in known and any(
+                x and not x.endswith("\n") for nb in (l, r) for x in source_lines(nb)) and all(
+                    not x or x.endswith("\n") for x in source_lines(b)):
+            # F24: one side drops the final newline of a source, the other appends a line
+            E.known("F24")
+        else:
+            E.check("no-source-line-absent-from-all-inputs", not fab, info=fab[:3])
     return h, dict(reset=common.nbdime_reset)
 
 
@@ -445,6 +500,12 @@ def use_shards(tier, props, known):
         out.append(("make_use", "use-input-%s" % t, dict(templates=(t,), mode="input", acts="ACTS_SRC", **kw)))
     for t in ["codeA", "codeRes2"] + (["codeDisp", "codeJobj"] if tier == "thorough" else []):
         out.append(("make_use", "use-output-%s" % t, dict(templates=(t,), mode="output", acts="ACTS_OUT", **kw)))
+    for name, tm, acts in [("outputs", "codeRes2", "ACTS_OUTS"), ("lines", "codeA", "ACTS_LINES"),
+                           ("transient", "codeTr", "ACTS_TRANSIENT"), ("long", "codeL", "ACTS_LONG"),
+                           ("emptysrc", "codeA", "ACTS_EMPTYSRC")]:
+        out.append(("make_use", "use-scn-%s" % name, dict(templates=(tm,), mode="merge", acts=acts, **kw)))
+    out.append(("make_use", "use-scn-output-outs", dict(templates=("codeRes2",), mode="output", acts="ACTS_OUT2", **kw)))
+    out.append(("make_use", "use-scn-input-lines", dict(templates=("codeA",), mode="input", acts="ACTS_LINES_SIM", **kw)))
     pairs = [("codeA", "codeB")] + ([("codeA", "codeA"), ("md", "codeRes2")] if tier == "thorough" else [])
     for p in pairs:
         out.append(("make_use", "use-merge-%s-%s" % p,
@@ -565,6 +626,10 @@ def nblaw_shards(tier, props, known):
                     dict(templates=(t,), acts="ACTS_INS", ins=(1, 1), configs=cfgs[:1], **kw)))
     out.append(("make_nbsymmetry", "nbsym-pair", dict(templates=("codeA", "codeB"), acts="ACTS_PAIR",
                                                       configs=cfgs[:1], **kw)))
+    for name, tm, acts in [("transient", "codeTr", "ACTS_TRANSIENT"), ("outputs", "codeRes2", "ACTS_OUTS"),
+                           ("lines", "codeA", "ACTS_LINES")]:
+        out.append(("make_nbsymmetry", "nbsym-scn-%s" % name, dict(templates=(tm,), acts=acts, configs=cfgs[:1], **kw)))
+        out.append(("make_nblaws", "nblaw-scn-%s" % name, dict(templates=(tm,), acts=acts, ins=0, configs=cfgs, **kw)))
     return out
 
 
@@ -747,7 +812,10 @@ def with_tool(shards, tool, only=None):
             continue
         p = dict(params)
         p["tool"] = tool
-        out.append((f, key.replace("-git-", "-%s-" % tool), p))
+        nk = key.replace("-git-", "-%s-" % tool)
+        if nk.endswith("-git"):
+            nk = nk[:-4] + "-" + tool
+        out.append((f, nk, p))
     return out
 
 
@@ -760,7 +828,7 @@ STUBS = ["nbdime.prettyprint.which -> answers according to the tool selector (gi
 BOUNDS = {
     "quick": {
         "default-strategy scripts": "one-cell bases over 8 templates: (i) every local action x every remote action (17 code / 11 markdown actions), (ii) every insertion combination (4 x 5) x {keep, del, src1}^2, (iii) notebook-level actions {keep, md_edit, md_add, md_del, minor}^2 on two templates; two-cell base codeA+codeB x 6 actions per cell and side; ids on/off",
-        "strategy product": "21 conflict-prone script pairs x (4 merge x 5 input x 7 output strategies x transients on/off + mergetool) x {git, diff3, builtin}",
+        "strategy product": "30 conflict-prone script pairs x (4 merge x 5 input x 7 output strategies x transients on/off + mergetool) x {git, diff3, builtin}",
         "leaves": "symbolic: execution counts, metadata values (any JSON scalar type), JSON payload numbers, nbformat_minor of each notebook (0..4, or 5 with ids)",
     },
     "thorough": {
